@@ -7,7 +7,8 @@ Class FieldOps := mkFO {
   f0 : F; f1 : F;
   fadd : F -> F -> F; fmul : F -> F -> F; fsub : F -> F -> F;
   fopp : F -> F; fdiv : F -> F -> F; finv : F -> F;
-  feqb : F -> F -> bool
+  feqb : F -> F -> bool;
+  fcmp : F -> F -> comparison   (* arkworks' Ord on field elements: order of canonical integers; only used by ordered containers *)
 }.
 
 Declare Scope F_scope.
@@ -23,7 +24,8 @@ Notation "/ x" := (finv x) : F_scope.
 
 Class FieldLaws (FO : FieldOps) := {
   FL_field : field_theory f0 f1 fadd fmul fsub fopp fdiv finv (@eq F);
-  FL_eqb : forall x y : F, feqb x y = true <-> x = y
+  FL_eqb : forall x y : F, feqb x y = true <-> x = y;
+  FL_cmp : forall x y : F, fcmp x y = Eq <-> x = y
 }.
 
 Section FieldFacts.
